@@ -20,7 +20,7 @@ import (
 type unguarded struct {
 	Fn   *ssa.Function
 	Call *ssa.Call
-	Key  string // stable key: function | callee
+	Key  string // stable key: package | callee (robust against moving the site between functions of the package)
 	Via  string // "no test" | "failure edge"
 }
 
@@ -113,7 +113,13 @@ func (r *Run) unguardedErrorSites(f *ssa.Function) []unguarded {
 					}
 				}
 			}
-			out = append(out, unguarded{Fn: f, Call: c, Key: core.FuncName(f) + " | " + key, Via: via})
+			pk := ""
+			if f.Pkg != nil {
+				pk = core.Rel(f.Pkg.Pkg.Path())
+			} else if f.Parent() != nil && f.Parent().Pkg != nil {
+				pk = core.Rel(f.Parent().Pkg.Pkg.Path())
+			}
+			out = append(out, unguarded{Fn: f, Call: c, Key: pk + " | " + key, Via: via})
 		}
 	}
 	return out
@@ -122,9 +128,9 @@ func (r *Run) unguardedErrorSites(f *ssa.Function) []unguarded {
 // checkGuardedErrors applies the rule to the subject functions of the given
 // packages; tolerated maps a stable key (function | callee) to the reason the
 // site is deliberate.
-func (r *Run) checkGuardedErrors(P string, tolerated map[string]string, rels ...string) {
+func (r *Run) checkGuardedErrors(P string, tolerated map[string]tolerance, rels ...string) {
 	n := 0
-	used := map[string]bool{}
+	used := map[string]int{}
 	var bad []string
 	for _, f := range r.P.SubjectFuncs(rels...) {
 		res := f.Signature.Results()
@@ -133,18 +139,22 @@ func (r *Run) checkGuardedErrors(P string, tolerated map[string]string, rels ...
 		}
 		n++
 		for _, u := range r.unguardedErrorSites(f) {
-			if _, ok := tolerated[u.Key]; ok {
-				used[u.Key] = true
+			if t, ok := tolerated[u.Key]; ok {
+				used[u.Key]++
+				if used[u.Key] <= t.Max {
+					continue
+				}
+				bad = append(bad, fmt.Sprintf("%s in %s at %s: %s (only %d such site(s) were confirmed by reading)", u.Key, core.FuncName(u.Fn), r.P.Pos(u.Call.Pos()), u.Via, t.Max))
 				continue
 			}
-			bad = append(bad, fmt.Sprintf("%s at %s: %s", u.Key, r.P.Pos(u.Call.Pos()), u.Via))
+			bad = append(bad, fmt.Sprintf("%s in %s at %s: %s", u.Key, core.FuncName(u.Fn), r.P.Pos(u.Call.Pos()), u.Via))
 		}
 	}
 	sort.Strings(bad)
 	var tol []string
-	for k, why := range tolerated {
-		if used[k] {
-			tol = append(tol, k+" — "+why)
+	for k, t := range tolerated {
+		if used[k] > 0 {
+			tol = append(tol, fmt.Sprintf("%s (%d of %d) — %s", k, used[k], t.Max, t.Why))
 		}
 	}
 	sort.Strings(tol)
@@ -152,29 +162,30 @@ func (r *Run) checkGuardedErrors(P string, tolerated map[string]string, rels ...
 	r.R.SetCount("E11 error-returning functions examined", n)
 	r.R.Check(len(bad) == 0, P+".errors.guarded", "E11 (guarded): in "+strings.Join(rels, ", ")+" a success return is reachable from an error-returning call only across that call's nil-error edge (tolerated sites are listed with their reason)", "error discipline", "-",
 		"a check whose failure no longer stops the function (condition dropped, negated or inverted) turns a rejection into an acceptance, or lets a nil result be used",
-		fmt.Sprintf("%d functions, every error guards what follows (%d tolerated sites)", n, len(tol)), strings.Join(bad, "; "))
+		fmt.Sprintf("%d functions, every error guards what follows (%d tolerated kinds)", n, len(tol)), strings.Join(bad, "; "))
+}
+
+// tolerance: how many sites of a package may go on after a failure of the callee, and why.
+type tolerance struct {
+	Max int
+	Why string
 }
 
 // toleratedErrors: every site on the pinned tree where a function proceeds to
 // a success return on the failure edge of a call — each confirmed by reading.
-var toleratedErrors = map[string]string{
-	"(*batch.Writer).process | (*batch.Writer).Add":                                                            "re-queueing a deferred operation after the anchor was written is best effort: the failure is logged and the batch stays anchored",
-	"(*batch/cutter.BatchCutter).Cut | iface:batch/cutter.OperationQueue.Peek":                                 "a queue that cannot be peeked yields 'nothing to cut' for this round; the operations stay queued",
-	"(*dochandler.DocumentHandler).ResolveDocument | (*dochandler.DocumentHandler).resolveRequestWithID":       "a long-form DID that is not anchored falls back to its initial state (the fallback path has its own obligations: C06.version.blind, C08.suffix.longform)",
-	"(*operationapplier.Applier).applyCreateOperation | hashing.IsValidModelMultihash":                         "protocol: a create whose delta does not match the delta hash yields the empty document with the recovery commitment (C03 effect table)",
-	"(*operationapplier.Applier).applyCreateOperation | iface:api/protocol.DocumentComposer.ApplyPatches":      "protocol: a create whose patches fail yields the empty document (C03 effect table)",
-	"(*operationapplier.Applier).applyCreateOperation | iface:operationapplier.OperationParser.ValidateDelta":  "protocol: a create with an invalid delta yields the empty document (C03 effect table)",
-	"(*operationapplier.Applier).applyRecoverOperation | (*operationapplier.Applier).verifyAnchoringTimeRange": "protocol: an out-of-window recover consumes its commitment with an empty document (C05 effect rows)",
-	"(*operationapplier.Applier).applyRecoverOperation | hashing.IsValidModelMultihash":                        "protocol: a recover whose delta does not match advances the recovery commitment with an empty document (C03 effect table)",
-	"(*operationapplier.Applier).applyRecoverOperation | iface:api/protocol.DocumentComposer.ApplyPatches":     "protocol: as above for failing patches",
-	"(*operationapplier.Applier).applyRecoverOperation | iface:operationapplier.OperationParser.ValidateDelta": "protocol: as above for an invalid delta",
-	"(*operationapplier.Applier).applyUpdateOperation | (*operationapplier.Applier).verifyAnchoringTimeRange":  "protocol: an out-of-window update consumes its commitment and leaves the document unchanged (C05 effect rows)",
-	"(*operationapplier.Applier).applyUpdateOperation | iface:api/protocol.DocumentComposer.ApplyPatches":      "protocol: an update whose patches fail advances the commitment and keeps the document (C03 effect table)",
-	"(*processor.OperationProcessor).Resolve | iface:processor.OperationStoreClient.Get":                       "a DID without published operations may still have unpublished ones: 'not found' from the store is not an error here",
-	"(*processor.OperationProcessor).Resolve | iface:processor.unpublishedOperationStore.Get":                  "unpublished operations are optional",
-	"(*txnprovider.OperationHandler).parseOperations | iface:txnprovider.OperationParser.ParseOperation":       "an operation that expired while queued is dropped from the batch (counted as expired; C13.partition)",
-	"(*txnprovider.OperationProvider).readFromCAS | iface:txnprovider.DCAS.Read":                               "alternate CAS sources are tried before giving up",
-	"operationparser/patchvalidator.validatePublicKeys | operationparser/patchvalidator.validateJWK":           "a key without a valid JWK is admitted when it carries base58 material and is not a JsonWebKey2020 (exactly-one-of rule is separate)",
+var toleratedErrors = map[string]tolerance{
+	"pkg/batch | (*batch.Writer).Add":                                                              {1, "re-queueing a deferred operation after the anchor was written is best effort: the failure is logged and the batch stays anchored"},
+	"pkg/batch/cutter | iface:batch/cutter.OperationQueue.Peek":                                    {1, "a queue that cannot be peeked yields 'nothing to cut' for this round; the operations stay queued"},
+	"pkg/dochandler | (*dochandler.DocumentHandler).resolveRequestWithID":                          {1, "a long-form DID that is not anchored falls back to its initial state (the fallback path has its own obligations: C06.version.blind, C08.suffix.longform)"},
+	"pkg/versions/1_0/operationapplier | hashing.IsValidModelMultihash":                            {2, "protocol: a create / recover whose delta does not match the delta hash yields the empty document and advances the commitment (C03 effect table)"},
+	"pkg/versions/1_0/operationapplier | iface:api/protocol.DocumentComposer.ApplyPatches":         {3, "protocol: an operation whose patches fail advances the commitment with the empty (create, recover) or unchanged (update) document (C03 effect table)"},
+	"pkg/versions/1_0/operationapplier | iface:operationapplier.OperationParser.ValidateDelta":     {2, "protocol: a create / recover with an invalid delta yields the empty document (C03 effect table)"},
+	"pkg/versions/1_0/operationapplier | (*operationapplier.Applier).verifyAnchoringTimeRange":     {2, "protocol: an out-of-window update / recover consumes its commitment (C05 effect rows)"},
+	"pkg/processor | iface:processor.OperationStoreClient.Get":                                     {1, "a DID without published operations may still have unpublished ones: 'not found' from the store is not an error here"},
+	"pkg/processor | iface:processor.unpublishedOperationStore.Get":                                {1, "unpublished operations are optional"},
+	"pkg/versions/1_0/txnprovider | iface:txnprovider.OperationParser.ParseOperation":              {1, "an operation that expired while queued is dropped from the batch (counted as expired; C13.partition)"},
+	"pkg/versions/1_0/txnprovider | iface:txnprovider.DCAS.Read":                                   {1, "alternate CAS sources are tried before giving up"},
+	"pkg/versions/1_0/operationparser/patchvalidator | operationparser/patchvalidator.validateJWK": {1, "a key without a valid JWK is admitted when it carries base58 material and is not a JsonWebKey2020 (exactly-one-of rule is separate)"},
 }
 
 // guardedPackages: where each property applies the rule.
